@@ -352,43 +352,39 @@ variable {σ₁ σ₂ : Type} {R₁ : RecReader σ₁} {R₂ : RecReader σ₂} 
 def BRel (Rel : σ₁ → σ₂ → Prop) (b1 : FcgiBody σ₁) (b2 : FcgiBody σ₂) : Prop :=
   Rel b1.st b2.st ∧ b1.body = b2.body ∧ b1.ptr = b2.ptr ∧ b1.readLen = b2.readLen ∧ b1.cl = b2.cl ∧ b1.reqId = b2.reqId
 
+theorem fcgiAdvance_rel (want : Nat) (b1 : FcgiBody σ₁) (b2 : FcgiBody σ₂) (hb : BRel Rel b1 b2) :
+    (fcgiAdvance want b1).1 = (fcgiAdvance want b2).1 ∧ BRel Rel (fcgiAdvance want b1).2 (fcgiAdvance want b2).2 := by
+  obtain ⟨hst, hbody, hptr, hrl, hcl, hid⟩ := hb
+  unfold fcgiAdvance
+  simp only [hbody, hptr, hrl]
+  split
+  · exact ⟨rfl, hst, rfl, rfl, rfl, hcl, hid⟩
+  · exact ⟨rfl, hst, rfl, rfl, rfl, hcl, hid⟩
+
 theorem fcgiTake_sim (hs : RecSim R₁ R₂ Rel) (want : Nat) (b1 : FcgiBody σ₁) (b2 : FcgiBody σ₂) (hb : BRel Rel b1 b2) :
     ERel (BRel Rel) (fcgiTake R₁ want b1) (fcgiTake R₂ want b2) := by
-  obtain ⟨hst, hbody, hptr, hrl, hcl, hid⟩ := hb
-  cases b1 with
-  | mk st1 body1 ptr1 rl1 cl1 id1 =>
-    cases b2 with
-    | mk st2 body2 ptr2 rl2 cl2 id2 =>
-      simp only at hst hbody hptr hrl hcl hid
-      subst hbody hptr hrl hcl hid
-      unfold fcgiTake
+  obtain ⟨hc, hrel⟩ := fcgiAdvance_rel want b1 b2 hb
+  obtain ⟨hst, hbody, hptr, hrl, hcl, hid⟩ := hrel
+  unfold fcgiTake
+  simp only
+  rw [hrl, hcl, hbody, hid]
+  split
+  · obtain ⟨res, s1', s2', e1, e2, hr'⟩ := read_cases hs _ _ (fcgiAdvance want b2).2.body hst
+    rw [e1, e2]
+    cases res with
+    | err e => simp [ERel]
+    | crash w => simp [ERel]
+    | got h body' =>
       simp only
       split
-      · -- whole body_ consumed: cleared
-        split
-        · obtain ⟨res, s1', s2', e1, e2, hr'⟩ := read_cases hs st1 st2 [] hst
-          simp only [e1, e2]
-          cases res with
-          | err e => simp [ERel]
-          | crash w => simp [ERel]
-          | got h body' =>
-            simp only
-            split
-            · simp [ERel]
-            · exact ⟨rfl, hr', rfl, rfl, rfl, rfl, rfl⟩
-        · exact ⟨rfl, hst, rfl, rfl, rfl, rfl, rfl⟩
-      · split
-        · obtain ⟨res, s1', s2', e1, e2, hr'⟩ := read_cases hs st1 st2 body1 hst
-          simp only [e1, e2]
-          cases res with
-          | err e => simp [ERel]
-          | crash w => simp [ERel]
-          | got h body' =>
-            simp only
-            split
-            · simp [ERel]
-            · exact ⟨rfl, hr', rfl, rfl, rfl, rfl, rfl⟩
-        · exact ⟨rfl, hst, rfl, rfl, rfl, rfl, rfl⟩
+      · simp [ERel]
+      · exact ⟨hc, hr', rfl, hptr, rfl, rfl, rfl⟩
+  · cases h1 : fcgiAdvance want b1 with
+    | mk c1 p1 =>
+      cases h2 : fcgiAdvance want b2 with
+      | mk c2 p2 =>
+        rw [h1, h2] at hc hst hbody hptr hrl hcl hid
+        exact ⟨hc, hst, hbody, hptr, hrl, hcl, hid⟩
 
 theorem fcgiReadSome_sim (hs : RecSim R₁ R₂ Rel) (want : Nat) (b1 : FcgiBody σ₁) (b2 : FcgiBody σ₂) (hb : BRel Rel b1 b2) :
     ERel (BRel Rel) (fcgiReadSome R₁ want b1) (fcgiReadSome R₂ want b2) := by
